@@ -624,7 +624,8 @@ func runC20(c *Ctx) {
 	// every exit of the select loop reaches the internal shutdown, except failed reload: returns of Run
 	for i, r := range order {
 		a := agg[r]
-		if a.fail {
+		if a.fail || returnIsFailureOfSetup(r) {
+			// (a failed set-up may close the collector through the provider-only helper and return its result)
 			continue
 		}
 		res := resultsOf(r)
